@@ -52,7 +52,8 @@ def run(ctx):
         text = fh.read().replace('MaxOcc = 2', f'MaxOcc = {2 if ctx.quick else 3}')
     with open(cfg, 'w') as fh:
         fh.write(text)
-    ctx.mc('MC_WellFormedIR', cfg, workers=4, timeout=3000, coverage=False)
+    if not ctx.replay:
+        ctx.mc('MC_WellFormedIR', cfg, workers=4, timeout=3000, coverage=False)
 
     reg_list = W.registry()
     if os.environ.get('VERIF_C41_ONLY'):      # (development: restrict the registry)
